@@ -16,6 +16,58 @@ from ..srcindex import AnalysisError, Index
 PM = "xdsl/transforms/riscv_lower_parallel_mov.py"
 
 
+
+def _covered(it: ast.AST) -> list[str] | None:
+    """collections an iterable ranges over: `xs`, `(*xs, *ys)`, `[*xs, *ys]`, `xs + ys`, `chain(xs, ys)`"""
+    if isinstance(it, ast.Name):
+        return [it.id]
+    if isinstance(it, (ast.Tuple, ast.List)) and it.elts and all(isinstance(e, ast.Starred) and isinstance(e.value, ast.Name) for e in it.elts):
+        return [e.value.id for e in it.elts]  # type: ignore[union-attr]
+    if isinstance(it, ast.BinOp) and isinstance(it.op, ast.Add):
+        l, r = _covered(it.left), _covered(it.right)
+        return None if l is None or r is None else l + r
+    if isinstance(it, ast.Call) and unparse(it.func) in ("chain", "itertools.chain") and all(isinstance(a, ast.Name) for a in it.args):
+        return [a.id for a in it.args]  # type: ignore[union-attr]
+    return None
+
+
+def _raise_reached(facts, env: dict[str, bool]):
+    """Truth of the conjunction of the guard facts when `env[c]` says whether all registers of collection c are allocated;
+    None when a fact is not a boolean combination of all()/any() over `.is_allocated` of those collections."""
+    from ..astutil import quant_canon
+
+    def ev(e: ast.AST):
+        if isinstance(e, ast.UnaryOp) and isinstance(e.op, ast.Not):
+            v = ev(e.operand)
+            return None if v is None else not v
+        if isinstance(e, ast.BoolOp):
+            vs = [ev(v) for v in e.values]
+            if any(v is None for v in vs):
+                return None
+            return all(vs) if isinstance(e.op, ast.And) else any(vs)
+        qc = quant_canon(e, True)
+        if qc is not None:
+            m = re.fullmatch(r"(all|any)\(\((not )?_q\.is_allocated for _q in (.+)\)\)", qc[0])
+            if m:
+                cols = _covered(ast.parse(m.group(3), mode="eval").body)
+                if cols is None or any(c not in env for c in cols):
+                    return None
+                all_alloc = all(env[c] for c in cols)
+                if m.group(1) == "all" and not m.group(2):
+                    return all_alloc
+                if m.group(1) == "any" and m.group(2):
+                    return not all_alloc
+        return None
+
+    out = True
+    for t_, p_ in facts:
+        v = ev(t_)
+        if v is None:
+            return None
+        out = out and (v == p_)
+    return out
+
+
 def check(idx: Index, rep: Report, tier: str) -> str:
     f = idx.func(PM, "ParallelMovPattern.match_and_rewrite")
     cfg = CFG(f.node)
@@ -118,8 +170,10 @@ def check(idx: Index, rep: Report, tier: str) -> str:
                 n_ = pm[id(n_)]
                 if isinstance(n_, ast.For):
                     loops.append(n_)
+            alloc_facts = [(t_, p_) for t_, p_ in guard_facts(f.node, rs) if "is_allocated" in unparse(t_)]
             for coll in gates:
-                whole = any(re.search(rf"all\(\(\w+\.is_allocated for \w+ in {coll}\)\)", t) for t, p in facts)
+                # the raise must be reached whenever some register of `coll` is unallocated, whatever the other collection holds
+                whole = bool(alloc_facts) and all(_raise_reached(alloc_facts, {coll: False, other: ov}) is True for other in gates if other != coll for ov in (True, False))
                 per_elem = [lp for lp in loops if unparse(lp.iter) == coll and any(re.fullmatch(rf"{re.escape(unparse(lp.target))}\.is_allocated", t) and not p for t, p in facts)]
                 per_elem += [lp for lp in loops if unparse(lp.iter) == coll and any(t == f"not {unparse(lp.target)}.is_allocated" and p for t, p in facts)]
                 if whole:
